@@ -159,8 +159,9 @@ def oracle(seed, tier):
             if vals is None:
                 viol.append({"what": "library failed %s" % (info,), "world_json": w}); continue
             cases += len(ts); nontriv += len(ts)
-            # slab/fault: the distance from the plane is the result of a closest-point iteration, accurate to centimetres (C06/C19): 0.1 m of slack on the boundary value
-            geo = 0.1 if sub in ("subducting plate", "fault") else 0.0
+            # slab/fault: the distance from the plane is the result of a closest-point iteration that stops at a tolerance on the curve parameter; on this 1600 km trench the
+            # foot is accurate to about a decimetre (measured: 0.11-0.13 m, see DESIGN section 13): 0.5 m of slack on the boundary value
+            geo = 0.5 if sub in ("subducting plate", "fault") else 0.0
             env, mono = check_profile(vals, lo, hi, 2000.0)
             if not env or not mono:
                 viol.append({"what": "%s linear: profile %s leaves [%.9g, %.9g] or is not monotone" % (sub, [float("%.7g" % v) for v in vals[:6]], lo, hi[0]), "world_json": w, "world": path, "cmd": info[1]})
